@@ -119,9 +119,11 @@ theorem liftLink_real (k₁ k₂ : K) (l : Layer ℝ) (f : V (T k₁) → V (T k
 
 /-- positions of one slot can be connected (in both directions, and a position with itself) -/
 theorem compat_same (k : K) (he : EncAdd (enc k)) : Compat (encAt T enc k) (encAt T enc k) where
-  add12 u v := by simp only [encAt, proj_add]; exact he.add _ _
-  add21 u v := by simp only [encAt, proj_add]; exact he.add _ _
-  shape u v := he.shape _ _
-  reshape u v := he.reshape _ _
+  fwd u v := ⟨enc k (proj T k v), by
+    simp only [encAt]
+    exact if_neg (by rw [ne_eq, not_not]; exact he.shape _ _), by
+    simp only [encAt, proj_add]; exact he.add _ _⟩
+  bwd u v := ⟨enc k (proj T k v), he.reshape _ _, by simp only [encAt, proj_add]; exact he.add _ _⟩
+  self _ u v := ⟨enc k (proj T k v), he.reshape _ _, by simp only [encAt, proj_add]; exact he.add _ _⟩
 
 end SkipPad
